@@ -233,6 +233,12 @@ def sh_merge(ctx, out, bodies, rule="SH.merge", floor_entries=5):
 CONTAINERish = re.compile(r"^(std::collections::|std::vec::Vec<|std::option::Option<|std::string::String|regex::Regex|std::result::Result<)")
 
 
+def iterates_blocks(txt):
+    """the rendered receiver of a `next()` iterates the blocks of a file (not, say, the lines of one block's
+    content, which is also reached through `blocks_with_context`)"""
+    return "blocks_with_context" in txt and not re.search(r"\blines\(|Block::content\(|split\w*\(|chars\(", txt)
+
+
 def outer_block_loops(ctx, body):
     """Loops of `body` driven by iterating `context.blocks` / `blocks_with_context`:
     returns [(header, blocks, kind)] with kind 'files' or 'blocks'."""
@@ -249,7 +255,9 @@ def outer_block_loops(ctx, body):
                 txt = render(e, 2000)
                 if cfg.innermost_loop(x) != h:
                     continue
-                if "blocks_with_context" in txt:
+                if "blocks_with_context" in txt and not re.search(r"\blines\(|Block::content\(|split\w*\(|chars\(", txt):
+                    # (an iterator over the lines of a block's content is not the iteration over the blocks,
+                    # although the content is reached through `blocks_with_context`)
                     kind = "blocks"
                 elif re.search(r"\.blocks\b", txt):
                     kind = "files"
